@@ -6,7 +6,7 @@ import gen
 from props import util
 
 THEOREMS = ['C10_explicit_grid_is_pure', 'C10_without_grid_is_pure', 'C10_portfolio_is_pure']
-CFG = {'p_coarse': 0.15, 'p_periodic': 0.1, 'T': (4, 9), 'n_assets': (1, 4), 'nodes': (1, 3), 'p_window': 0.6, 'p_market': 0.8, 'p_wacc': 0.6,
+CFG = {'waccs': [0.05, 0.053, 0.1, 0.5, 0.003], 'p_coarse': 0.15, 'p_periodic': 0.1, 'T': (4, 9), 'n_assets': (1, 4), 'nodes': (1, 3), 'p_window': 0.6, 'p_market': 0.8, 'p_wacc': 0.6,
        'p_cap_dict': 0.5, 'window_kinds': ['inside', 'inside', 'left', 'right', 'straddle_l', 'straddle_r'],
        'freqs': ['h', 'h', '30min'], 'tzs': [None, None, 'CET'],
        'kinds': {'SimpleContract': 2, 'Contract': 3, 'Transport': 2, 'Storage': 2, 'MultiCommodityContract': 1, 'OrderBook': 1,
@@ -24,7 +24,8 @@ def grid_variants(sp, rng):
     g3 = dict(g0, start=gen.fmt(s0 + rng.randint(1, 3) * step), end=gen.fmt(e0 + rng.randint(1, 4) * step))   # shifted, longer
     g4 = dict(g0, freq={'h': '2h', '30min': 'h'}.get(g0['freq'], g0['freq']))                        # coarser steps (may equal an asset's own frequency)
     g5 = dict(g0, freq={'h': '30min', '30min': '15min'}.get(g0['freq'], g0['freq']))                 # finer steps
-    for g in (g1, g2, g3, g4, g5):
+    g6 = dict(g0, unit={'h': 'min', 'd': 'h', 'min': 'h'}.get(g0.get('unit', 'h'), 'h'))              # another main time unit
+    for g in (g1, g2, g3, g4, g5, g6):
         try:
             gen.check_safe(g['start'], g.get('tz')); gen.check_safe(g['end'], g.get('tz'))
             g['T'] = gen.grid_T(g)
@@ -124,6 +125,9 @@ def run(ctx):
     pl = gen.gen_many_plants(ctx.seed, n // 5, dict(CFG, freqs=['h'], units=['h'], tzs=[None], T=(4, 8), p_unaligned_end=0.0, p_window_plant=0.8, p_profile=0.4, p_inflow=0.0), 'c10p_')
     for sp in pl:
         rng = random.Random(str(sp['seed']) + '/ops')
+        for a in sp['assets']:
+            if a.get('ramp_freq') and rng.random() < 0.5:
+                a['ramp_freq'] = None             # ramps given in the main time unit of whatever grid is used
         sp['opts']['grids'] = [g for g in grid_variants(sp, rng) if g['freq'] == sp['grid']['freq'] and g.get('tz') == sp['grid'].get('tz')]
         sp['opts']['ops'] = gen_ops(sp, rng, len(sp['opts']['grids']))
         sp['opts']['ops'] = [o for o in sp['opts']['ops'] if o['op'] not in ('S', 'F', 'J')]
